@@ -443,12 +443,13 @@ type ModItem struct {
 }
 
 type LoopSpec struct {
-	Ordinal    int
-	Invariants []Clause
-	Modifies   []ModItem
-	HasMod     bool
-	Decreases  SExpr
-	DecSrc     string
+	Ordinal     int
+	BackAsserts []Clause // asserted at every back edge (per-iteration facts; head(x) = value of x when the iteration began)
+	Invariants  []Clause
+	Modifies    []ModItem
+	HasMod      bool
+	Decreases   SExpr
+	DecSrc      string
 }
 
 type CallAssert struct {
@@ -781,6 +782,17 @@ func (cs *Contracts) parseContractFile(path string, pkg string) error {
 				}
 				ls.HasMod = true
 				ls.Modifies = append(ls.Modifies, items...)
+			case "backedge":
+				// loop <n> backedge assert <label>: expr
+				b2 := strings.TrimSpace(strings.TrimPrefix(body, "assert"))
+				c, err := labelled(b2)
+				if err != nil {
+					return err
+				}
+				if c.Label == "" {
+					c.Label = fmt.Sprintf("b%d", len(ls.BackAsserts))
+				}
+				ls.BackAsserts = append(ls.BackAsserts, c)
 			case "decreases":
 				e, err := mustExpr(body)
 				if err != nil {
